@@ -213,7 +213,7 @@ void Ctx::c01() {
                         // not a witness: an acknowledgement read while this request was already queued but not yet handed to the
                         // transport (a correct client discards those when it starts the write). One read before the request
                         // existed may have been parsed after it was initiated (several packets per read), so it is accepted.
-                        if (sp.delivered_seq > o.init_seq && sp.delivered_seq < wstart) continue;
+                        if (sp.delivered_seq > o.init_seq && processed_by(sp.conn, sp.delivered_seq) < wstart) continue;
                         bool final_ack = (o.qos == 1 && sp.pkt.type == PUBACK) || (o.qos == 2 && (sp.pkt.type == PUBCOMP || (sp.pkt.type == PUBREC && sp.pkt.rc >= 0x80)));
                         if (!final_ack) continue;
                         bool props_ok = sp.pkt.type == PUBREC || props_equal(sp.pkt.props, d->c.props);
@@ -297,7 +297,7 @@ void Ctx::c14() {
                     uint64_t wstart = r.first_group ? s.net.groups[r.first_group - 1].seq_start : r.seq;
                     for (auto& sp : s.broker.sent) {
                         if (sp.conn != r.conn || sp.hostile || sp.pkt.pid != r.pkt.pid) continue;
-                        if (relaxed_witness() ? (sp.delivered_seq > o.init_seq && sp.delivered_seq < wstart) : (sp.seq < r.seq)) continue;
+                        if (relaxed_witness() ? (sp.delivered_seq > o.init_seq && processed_by(sp.conn, sp.delivered_seq) < wstart) : (sp.seq < r.seq)) continue;
                         if (sp.pkt.type != (sub ? SUBACK : UNSUBACK)) continue;
                         if (!sp.delivered_seq || sp.delivered_seq > d->seq) continue;
                         if (sp.pkt.rcs == d->c.rcs && props_equal(sp.pkt.props, d->c.props)) ok = true;
@@ -659,6 +659,21 @@ std::map<std::string, uint64_t> run_features(Sim& s) {
         if (!g.done || g.seq_done > sp.delivered_seq) ++early;
     }
     f["acks_before_write_done"] = early;
+    // reach probe: a repeated acknowledgement reached the client while a new request re-using its identifier was
+    // initiated but not yet handed to the transport (the window in which a correct client must discard it)
+    size_t stale = 0;
+    {
+        std::map<std::string, int> by_topic;
+        for (auto& o : s.ops) if (o.kind == OpKind::publish && o.qos > 0) by_topic[o.topic] = o.id;
+        for (auto& r : s.broker.recv) {
+            if (!r.decode_err.empty() || r.pkt.type != PUBLISH || r.pkt.qos == 0 || !r.first_group) continue;
+            auto it = by_topic.find(r.pkt.topic); if (it == by_topic.end()) continue;
+            auto& o = s.ops[it->second];
+            uint64_t wstart = s.net.groups[r.first_group - 1].seq_start;
+            for (auto& sp : s.broker.sent) if (sp.dup_ack && sp.conn == r.conn && sp.pkt.pid == r.pkt.pid && sp.delivered_seq > o.init_seq && sp.delivered_seq < wstart) ++stale;
+        }
+    }
+    f["stale_ack_in_queue_window"] = stale;
     size_t ka = 0; for (auto& r : s.net.reads) if (r.end == sim::ReadRec::slot_cancel) ++ka;
     f["ka_judged"] = ka;
     // a reconnect that ended with Session Present 0 after a successful subscribe
